@@ -18,6 +18,12 @@ removed / cut, backup_root emptied / removed.  A new BackupManager must not list
 (C18.damaged.listed_only_if_tree_matches_record); and whoever uses the damaged backup afterwards (new manager, the manager from before
 the damage, run_remodel_restore, run_remodel) either gets an exception or every file it was to restore back byte for byte
 (C18.damaged.no_silent_partial_restore).
+Part E (hidden entries): trees and selections that hold dot-files, files below dot-directories, names / directories beginning with a
+blank or an underscore - alone and mixed with ordinary files, given explicitly or found by io_util.get_file_list / run_remodel_backup
+with the CLI's filters.  Whatever create_backup accepted (= the record it wrote), a NEW BackupManager lists exactly that, every way of
+restoring brings every recorded file back byte for byte, run_remodel starts from it (existing labels C18.create.complete,
+C18.restore.*, C18.remodel.*); which hidden files the CLI's own listing selects is recorded, not judged.  Three of these trees also
+run through Parts A, B and D.
 """
 import builtins
 import itertools
@@ -66,6 +72,42 @@ UNIVERSE.update(CASE_UNIVERSE)
 CASE_TREE_UPPER = list(CASE_UNIVERSE)[:6]
 CASE_TREE_UPPER_SMALL = ["Sub-01/EEG/Sub-01_task_A_events.tsv", "Sub-01/Sub-01_task_A_Scans.BIN", "sub-02/eeg/sub-02_task_B_events.tsv"]
 CASE_TREE_COLLIDE = list(CASE_UNIVERSE)[6:]
+
+# Part E, hidden and oddly named entries: dot-files, files below dot-directories (at the root and deeper, nested), names and
+# directories that begin with a blank or an underscore, a name that begins with two dots, a hidden file that is not a table.
+HIDDEN_UNIVERSE = {
+    "sub2/.sub2_task_stop_events.tsv": b"x\ty\na\tstop\nb\t2\n",                          # dot-file next to ordinary files
+    "sub1/.heudiconv/sub1_task_A_events.tsv": b"onset\tduration\tx\ty\n1\t1\tb\theudiconv\n2\t1\ta\t0\n",   # below a dot-directory
+    ".git/x_task_B_events.tsv": b"x\ty\nb\tgit\nb\tn/a\na\t1\n",                          # dot-directory directly in the root
+    ".hidden_task_A_events.tsv": b"x\ty\r\nb\troot dot\r\n",                              # dot-file directly in the root, CRLF
+    ".dot/.deep/.z_task_A_events.tsv": b"x\ty\nb\tdeep\na\t1",                             # hidden at every level, no final newline
+    "sub2/..sub2_task_B_events.tsv": b"x\ty\nb\ttwo dots\n",                               # name beginning with two dots
+    "sub1/.DS_Store": b"\x00\x00\x00\x01Bud1\r\n" + bytes(range(90, 120)),                 # hidden, not a table
+    "sub1/ sub1_task_A_events.tsv": b"x\ty\nb\tleading blank\na\t2\n",                     # leading blank in the name
+    "sub1/_sub1_task_B_events.tsv": b"x\ty\nb\tleading underscore\n",                      # leading underscore
+    " lead/_u/_x_task_A_events.tsv": b"x\ty\na\t1\nb\tblank dir\n",                        # directories with leading blank / underscore
+    "__pycache__/_task_B_events.tsv": b"x\ty\nb\tdunder\n",                                # directory and name of underscores only
+}
+UNIVERSE.update(HIDDEN_UNIVERSE)
+ORD_A1, ORD_A2, ORD_B1 = "sub1/sub1_task_A_events.tsv", "sub2/sub2_task_A_events.tsv", "sub1/sub1_task_B_events.tsv"
+HIDDEN_TREES = [
+    [ORD_A1, "sub2/.sub2_task_stop_events.tsv", "sub1/.heudiconv/sub1_task_A_events.tsv", ".git/x_task_B_events.tsv", ORD_A2],
+    [ORD_B1, "sub1/ sub1_task_A_events.tsv", "sub1/_sub1_task_B_events.tsv", " lead/_u/_x_task_A_events.tsv",
+     "__pycache__/_task_B_events.tsv"],
+    [".hidden_task_A_events.tsv", ".dot/.deep/.z_task_A_events.tsv", "sub1/.DS_Store", "sub2/..sub2_task_B_events.tsv"],
+    ["sub2/.sub2_task_stop_events.tsv"],
+    ["sub1/.heudiconv/sub1_task_A_events.tsv"],
+    [".git/x_task_B_events.tsv", ORD_A2],
+    ["sub1/ sub1_task_A_events.tsv"],
+    [ORD_A1, ORD_B1, "sub1/.DS_Store"],
+    list(HIDDEN_UNIVERSE) + [ORD_A1, ORD_A2, ORD_B1],
+]
+HIDDEN_HOWS = ["explicit_all", "explicit_odd", "explicit_events", "listed_events", "listed_star", "cli", "cli_star"]
+
+
+def is_odd(rel):
+    return rel in HIDDEN_UNIVERSE
+
 
 OPS = [{"operation": "remove_rows", "description": "d", "parameters": {"column_name": "x", "remove_values": ["a"]}},
        {"operation": "rename_columns", "description": "d", "parameters": {"column_mapping": {"y": "yy"}, "ignore_missing": True}}]
@@ -234,7 +276,7 @@ def apply_model(state, orig, backed, action, ref):
         for f in backed:
             st[f] = orig[f]
         for f in list(st):
-            if is_events(f):
+            if is_events(f) and f in ref:
                 st[f] = ref[f]
     return st, wild
 
@@ -275,22 +317,43 @@ def eval_history_group(job):
             json.dump(OPS, fp)
         orig = {f: UNIVERSE[f] for f in tree}
         backed = select(tree, selection)
-        can_remodel = all(f in backed for f in tree if is_events(f))
+        cli_listed = bool(job.get("hidden") and via_cli and selection == "events")
+        can_remodel = all(f in backed for f in tree if is_events(f)) or cli_listed
         # pristine template: tree + backup
         tmpl = os.path.join(base, "tmpl")
         os.makedirs(tmpl)
         make_tree(tmpl, tree)
         fails0 = []
         inp0 = {"kind": "history", "tree": tree, "selection": selection, "via_cli": via_cli}
+        if job.get("hidden"):
+            inp0["hidden"] = True
         try:
             ok = create_backup(tmpl, tree, selection, via_cli)
         except Exception as e:
             ok = None
             fails0.append(("C18.create.complete", inp0, {"exception": type(e).__name__, "message": str(e)[:200]}, "backup created"))
+        rec = None
+        if ok is not None and cli_listed:
+            # which of the hidden files the CLI's own listing selects is not judged: the selection is what the record names
+            try:
+                with open(os.path.join(tmpl, "derivatives", "remodel", "backups", NAME, "backup_lock.json")) as fp:
+                    keys = list(json.load(fp))
+                backed = [f for f in tree if f in keys]
+                if sorted(backed) != sorted(keys):
+                    fails0.append(("C18.create.complete", inp0, {"recorded": sorted(keys)}, "files of the tree"))
+            except Exception as e:
+                fails0.append(("C18.create.complete", inp0, {"record": type(e).__name__}, "a record"))
+                ok = None
         if ok is not None:
             from hed.tools.remodeling.backup_manager import BackupManager
-            man = BackupManager(tmpl)
-            rec = man.get_backup(NAME)
+            try:
+                man = BackupManager(tmpl)
+                rec = man.get_backup(NAME)
+            except Exception as e:
+                fails0.append(("C18.create.complete", dict(inp0, stage="a new BackupManager lists the backup"),
+                               {"exception": type(e).__name__, "message": str(e)[:300]}, {"listed": sorted(backed)}))
+                out.append((json.dumps(inp0), True, fails0))
+                return out
             bfiles = read_backup(tmpl, NAME)
             exp_b = {"backup_root/" + f: orig[f] for f in backed}
             got_b = {k: v for k, v in bfiles.items() if k != "backup_lock.json"}
@@ -316,6 +379,9 @@ def eval_history_group(job):
                 do_remodel(r0, model)
                 after = read_state(r0)
                 ref = {f: after.get(f) for f in tree if is_events(f)}
+                if cli_listed:
+                    # a hidden file that the listing of run_remodel does not pick stays as it is (recorded, not judged)
+                    ref = {f: v for f, v in ref.items() if not (is_odd(f) and v == orig[f])}
                 bad = [f for f in ref if ref[f] is None or parse_tsv(ref[f]) != oracle_remodel(orig[f])]
                 other = [f for f in tree if not is_events(f) and after.get(f) != orig[f]]
                 if bad or other or set(after) != set(orig):
@@ -750,7 +816,13 @@ def eval_damaged_group(job):
             fails = []
             root = os.path.join(base, "d%d" % di)
             shutil.copytree(tmpl, root)
-            stale = BackupManager(root)                   # a manager that saw the complete backup
+            try:
+                stale = BackupManager(root)               # a manager that saw the complete backup
+            except Exception as e:
+                out.append((json.dumps(inp), True, [("C18.create.complete", dict(inp, stage="a new BackupManager lists the backup"),
+                                                     {"exception": type(e).__name__, "message": str(e)[:300]},
+                                                     "the complete backup is listed")]))
+                break
             try:
                 apply_damage(root, dmg)
             except Exception as e:
@@ -853,7 +925,198 @@ def _show1(v):
     return v.decode("latin-1") if isinstance(v, bytes) else v
 
 
-GROUP = {"history": eval_history_group, "crash": eval_crash_group, "overwrite": eval_overwrite_group, "damaged": eval_damaged_group}
+# ------------------------------------------------------------------------------------------------------------
+# Part E: hidden / oddly named entries in the tree and in the selection
+# ------------------------------------------------------------------------------------------------------------
+CLI_EXCLUDE = ["derivatives", "remodeling"]          # what run_remodel_backup passes to get_file_list with '-x derivatives'
+
+
+def hidden_selection(root, tree, how):
+    """the file list handed to create_backup (None: the CLI main makes its own)"""
+    from hed.tools.util import io_util
+    full = lambda fs: [os.path.realpath(os.path.join(root, f)) for f in fs]
+    if how == "explicit_all":
+        return full(tree)
+    if how == "explicit_odd":
+        return full([f for f in tree if is_odd(f)])
+    if how == "explicit_events":
+        return full([f for f in tree if is_events(f)])
+    if how == "listed_events":
+        return io_util.get_file_list(root, name_suffix=["events"], extensions=[".tsv"], exclude_dirs=CLI_EXCLUDE)
+    if how == "listed_star":
+        return io_util.get_file_list(root, name_suffix=None, extensions=None, exclude_dirs=CLI_EXCLUDE)
+    return None
+
+
+def spoil_hidden(root, tree, accepted):
+    """the data changes after the backup: every file rewritten, the first accepted file deleted, and the top-level directory of
+    the first accepted odd-named file below a directory removed altogether (a restore has to make hidden directories again)"""
+    exp = {}
+    for f in tree:
+        exp[f] = b"SPOILED\t" + UNIVERSE[f][:5]
+        os.makedirs(os.path.dirname(os.path.join(root, f)), exist_ok=True)
+        with open(os.path.join(root, f), "wb") as fp:
+            fp.write(exp[f])
+    gone = set(accepted[:1])
+    deep = [f for f in accepted if is_odd(f) and "/" in f]
+    if deep:
+        top = deep[0].split("/")[0]
+        gone |= {f for f in tree if f.startswith(top + "/")}
+        shutil.rmtree(os.path.join(root, top), ignore_errors=True)
+    for f in gone:
+        if os.path.exists(os.path.join(root, f)):
+            os.remove(os.path.join(root, f))
+        exp.pop(f, None)
+    return exp
+
+
+def eval_hidden_group(job):
+    """whatever create_backup accepted: a NEW BackupManager lists the backup with exactly those files, every way of restoring
+    brings every accepted file back byte for byte (and nothing else), run_remodel starts from it (twice == once).  Which of the
+    hidden files the listing of the CLI selects is recorded, not judged."""
+    from hed.tools.remodeling.backup_manager import BackupManager
+    import hed.tools.remodeling.cli.run_remodel_backup as rb
+    import hed.tools.remodeling.cli.run_remodel_restore as rs
+    import hed.tools.remodeling.cli.run_remodel as rr
+    tree, how = job["tree"], job["how"]
+    inp = {"kind": "hidden", "tree": tree, "how": how}
+    fails = []
+    note = {}
+    orig = {f: UNIVERSE[f] for f in tree}
+    base = tempfile.mkdtemp(prefix="c18h_")
+    try:
+        model = os.path.join(base, "model.json")
+        with open(model, "w") as fp:
+            json.dump(OPS, fp)
+        root = os.path.join(base, "data")
+        os.makedirs(root)
+        make_tree(root, tree)
+        creator = None
+        given = None
+        try:
+            given = hidden_selection(root, tree, how)
+            if how.startswith("explicit") and not given:
+                return [(json.dumps(dict(inp, hidden_verdict="nothing to select")), False, fails)]
+            if given is None:
+                quiet(rb.main, [root, "-bn", NAME, "-x", "derivatives"] + (["-e", "*", "-f", "*"] if how == "cli_star" else []))
+                ok = True
+            else:
+                creator = BackupManager(root)
+                ok = creator.create_backup(list(given), NAME, verbose=False)
+        except Exception as e:
+            fails.append(("C18.create.complete", dict(inp, stage="create"), {"exception": type(e).__name__, "message": str(e)[:300]},
+                          "backup created"))
+            return [(json.dumps(inp), True, fails)]
+        # ---- what was accepted = the record that create_backup wrote (read as plain JSON, no manager involved)
+        lock = os.path.join(root, "derivatives", "remodel", "backups", NAME, "backup_lock.json")
+        try:
+            with open(lock) as fp:
+                accepted_keys = list(json.load(fp))
+        except Exception as e:
+            fails.append(("C18.create.complete", dict(inp, stage="record written"), {"returned": ok, "record": type(e).__name__},
+                          "create_backup returns True and leaves a record"))
+            return [(json.dumps(inp), True, fails)]
+        accepted = [f for f in tree if f in accepted_keys]
+        note = {"selected_odd": sorted(f for f in accepted if is_odd(f)), "not_selected_odd": sorted(f for f in tree if is_odd(f) and f not in accepted)}
+        want = None if given is None or how.startswith("listed") else sorted(os.path.relpath(g, os.path.realpath(root)).replace(os.sep, "/") for g in given)
+        copies = {k: v for k, v in read_backup(root, NAME).items() if k != "backup_lock.json"}
+        if ok is not True or sorted(accepted) != sorted(accepted_keys) or (want is not None and sorted(accepted_keys) != want) \
+                or copies != {"backup_root/" + f: orig[f] for f in accepted} or read_state(root) != orig:
+            fails.append(("C18.create.complete", dict(inp, stage="record and copies"),
+                          {"returned": ok, "recorded": sorted(accepted_keys), "copies": sorted(copies)},
+                          {"returned": True, "recorded": want if want is not None else "files of the tree", "copies": "one per recorded file, same bytes"}))
+        if not accepted:
+            return [(json.dumps(dict(inp, hidden_verdict="listing selected nothing", **note)), False, fails)]
+        backup0 = read_backup(root, NAME)
+        # ---- a NEW manager lists it as valid
+        try:
+            man2 = BackupManager(root)
+            listed = man2.get_backup(NAME)
+            paths_b = man2.get_backup_files(NAME) if listed else []
+            paths_o = man2.get_backup_files(NAME, original_paths=True) if listed else []
+            obs = {"listed": sorted(listed) if listed is not None else None, "copies_exist": all(os.path.isfile(x) for x in paths_b),
+                   "original_paths": sorted(paths_o) == sorted(os.path.realpath(os.path.join(root, f)) for f in accepted)}
+        except Exception as e:
+            obs = {"exception": type(e).__name__, "message": str(e)[:300]}
+        exp_l = {"listed": sorted(accepted), "copies_exist": True, "original_paths": True}
+        if obs != exp_l:
+            fails.append(("C18.create.complete", dict(inp, stage="a new BackupManager lists the backup"), obs, exp_l))
+        # ---- every way of restoring
+        routes = [("new_manager", lambda r: BackupManager(r).restore_backup(NAME, verbose=False), None),
+                  ("cli_restore", lambda r: quiet(rs.main, [r, "-bn", NAME]), None),
+                  ("cli_restore_task_A", lambda r: quiet(rs.main, [r, "-bn", NAME, "-t", "A"]), "A"),
+                  ("new_manager_task_B", lambda r: BackupManager(r).restore_backup(NAME, task_names=["B"], verbose=False), "B")]
+        if creator is not None:
+            routes.append(("creating_manager", lambda r: creator.restore_backup(NAME, verbose=False), None))
+        for route, fn, task in routes:
+            rinp = dict(inp, route=route)
+            spoiled = spoil_hidden(root, tree, accepted)
+            try:
+                fn(root)
+            except Exception as e:
+                fails.append(("C18.restore.completes", rinp, {"exception": type(e).__name__, "message": str(e)[:300]}, "no exception"))
+                continue
+            got = read_state(root)
+            exp = dict(spoiled)
+            for f in accepted:
+                if task is None or ("task_" + task) in os.path.basename(f):
+                    exp[f] = orig[f]
+            if got != exp:
+                diff = sorted(f for f in set(got) | set(exp) if got.get(f) != exp.get(f))
+                if task is None:
+                    label = "C18.restore.byte_identical"
+                else:
+                    label = "C18.restore.task_filter_restores_task_files" if all(("task_" + task) in os.path.basename(f) for f in diff) \
+                        else "C18.restore.task_filter_touches_only"
+                fails.append((label, rinp, {f: _show1(got.get(f)) for f in diff}, {f: _show1(exp.get(f)) for f in diff}))
+            if read_backup(root, NAME) != backup0:
+                fails.append(("C18.backup.unchanged_by_later_actions", rinp, "backup directory content changed", "unchanged"))
+        # ---- the remodel CLI starts from the backup.  Run when the backup holds every events file of the tree, or when it was made
+        # by the CLI's own listing (run_remodel lists the same way, so what it works on is what was backed up)
+        ev = [f for f in tree if is_events(f)]
+        if ev and (all(f in accepted for f in ev) or how in ("cli", "listed_events")):
+            rinp = dict(inp, route="cli_remodel")
+            spoiled = spoil_hidden(root, tree, accepted)
+            states = []
+            for n in (1, 2):
+                try:
+                    do_remodel(root, model)
+                except Exception as e:
+                    fails.append(("C18.remodel.completes", dict(rinp, run=n), {"exception": type(e).__name__, "message": str(e)[:300]},
+                                  "no exception"))
+                    break
+                states.append(read_state(root))
+            if states:
+                got = states[0]
+                bad, remodeled = {}, []
+                for f in sorted(set(got) | set(spoiled) | set(accepted)):
+                    if f in accepted and is_events(f):
+                        if f in got and parse_tsv(got[f]) == oracle_remodel(orig[f]):
+                            remodeled.append(f)
+                        elif not (is_odd(f) and got.get(f) == orig[f]):     # restored, but not picked by run_remodel's listing
+                            bad[f] = (got.get(f), "rows of the backed-up original with x != a, y renamed")
+                    else:
+                        want_f = orig[f] if f in accepted else spoiled.get(f)
+                        if got.get(f) != want_f:
+                            bad[f] = (got.get(f), want_f)
+                note["remodeled_odd"] = sorted(f for f in remodeled if is_odd(f))
+                if bad:
+                    fails.append(("C18.remodel.starts_from_backup", rinp, {f: _show1(v[0]) for f, v in bad.items()},
+                                  {f: _show1(v[1]) for f, v in bad.items()}))
+                if len(states) == 2 and states[1] != states[0]:
+                    diff = sorted(f for f in set(states[0]) | set(states[1]) if states[0].get(f) != states[1].get(f))
+                    fails.append(("C18.remodel.twice_equals_once", rinp, {f: _show1(states[1].get(f)) for f in diff},
+                                  {f: _show1(states[0].get(f)) for f in diff}))
+                if read_backup(root, NAME) != backup0:
+                    fails.append(("C18.backup.unchanged_by_later_actions", rinp, "backup directory content changed", "unchanged"))
+        verdict = "all odd names selected" if not note["not_selected_odd"] else "some odd names not selected"
+        return [(json.dumps(dict(inp, hidden_verdict=verdict, **note)), any(is_odd(f) for f in accepted), fails)]
+    finally:
+        shutil.rmtree(base, ignore_errors=True)
+
+
+GROUP = {"history": eval_history_group, "crash": eval_crash_group, "overwrite": eval_overwrite_group, "damaged": eval_damaged_group,
+         "hidden": eval_hidden_group}
 
 
 def eval_job(job):
@@ -926,11 +1189,32 @@ def run(w: Workload):
             jobs.append({"kind": "crash", "tree": tree, "selection": selection})
             jobs.append({"kind": "overwrite", "tree": tree, "selection": selection})
             jobs.append({"kind": "damaged", "tree": tree, "selection": selection, "quick": w.quick})
+    # Part E: hidden / oddly named entries
+    for tree in HIDDEN_TREES:
+        for how in HIDDEN_HOWS:
+            jobs.append({"kind": "hidden", "tree": tree, "how": how})
+    hist_hidden = HIDDEN_TREES[:3] if w.quick else HIDDEN_TREES
+    for ti, tree in enumerate(hist_hidden):
+        for selection in ("all", "events", "taskA"):
+            if not select(tree, selection):
+                continue
+            for via_cli in (False, True):
+                if w.quick and (ti + (selection == "all") + via_cli) % 2 == 1:
+                    continue
+                seqs = seqs_quick if w.quick else seq_all
+                n = (len(seqs) + 2) // 3
+                for i in range(0, len(seqs), n):
+                    jobs.append({"kind": "history", "tree": tree, "selection": selection, "via_cli": via_cli, "hidden": True,
+                                 "sequences": seqs[i:i + n]})
+            if selection != "taskA":
+                jobs.append({"kind": "crash", "tree": tree, "selection": selection})
+                jobs.append({"kind": "damaged", "tree": tree, "selection": selection, "quick": w.quick})
     import multiprocessing as mp
     nproc = min(14, max(1, (os.cpu_count() or 2) - 2))
     with mp.get_context("fork").Pool(nproc) as pool:
         results = pool.map(eval_job, jobs, chunksize=1)
-    counts = {"history": 0, "crash": 0, "overwrite": 0, "damaged": 0}
+    counts = {"history": 0, "crash": 0, "overwrite": 0, "damaged": 0, "hidden": 0}
+    hidden_verdicts = {}
     verdicts = {}
     damaged_verdicts = {}
     for job, res in zip(jobs, results):
@@ -940,6 +1224,10 @@ def run(w: Workload):
             if "verdict" in d:
                 v = d["call"] + "/" + d["mode"] + " -> " + d["verdict"]
                 verdicts[v] = verdicts.get(v, 0) + 1
+            if "hidden_verdict" in d:
+                v = d["how"] + " -> " + d["hidden_verdict"] + (" / remodeled: all selected" if d.get("remodeled_odd") is not None and
+                                                                 d.get("remodeled_odd") == d.get("selected_odd") else "")
+                hidden_verdicts[v] = hidden_verdicts.get(v, 0) + 1
             if "damaged_verdict" in d:
                 v = d["damage"]["damage"] + " -> " + d["damaged_verdict"]
                 damaged_verdicts[v] = damaged_verdicts.get(v, 0) + 1
@@ -964,6 +1252,18 @@ def run(w: Workload):
                  "before the damage, run_remodel_restore (all / task A), run_remodel}%s after the data was rewritten and one file deleted"
                  % (" (quick: two of these per state, rotating)" if w.quick else ""),
            exhaustive=True, listing_of_damaged=dict(sorted(damaged_verdicts.items())))
+    w.part("hidden and oddly named entries in the tree and in the selection", cases=counts["hidden"],
+           bound="%d trees over an %d-file universe (dot-files in the root and in sub-directories, files below dot-directories in the root / "
+                 "deeper / nested, a name beginning with two dots, a hidden non-table, names and directories beginning with a blank or an "
+                 "underscore; alone, and mixed with ordinary files) x %d ways of selecting (explicit list: all / only the odd names / events "
+                 "files; io_util.get_file_list with the CLI's filters and with '*' then create_backup; run_remodel_backup.main with its "
+                 "defaults and with -e * -f *).  Whatever the record written by create_backup names: a NEW BackupManager lists exactly that, "
+                 "restore through a new manager / run_remodel_restore / task A / task B / the creating manager brings every recorded file "
+                 "back byte for byte after all data was rewritten, one file deleted and a hidden directory removed, and touches nothing "
+                 "else; run_remodel starts from the backup, twice == once.  Which hidden files the CLI's listing selects is recorded "
+                 "(listing_of_hidden), not judged.  + %d of these trees through the histories / interruption / damaged parts above"
+                 % (len(HIDDEN_TREES), len(HIDDEN_UNIVERSE), len(HIDDEN_HOWS), len(hist_hidden)),
+           exhaustive=True, listing_of_hidden=dict(sorted(hidden_verdicts.items())))
     w.not_covered += [
         "interruption of restore_backup or of the remodeler itself; concurrent managers (a manager whose listing is stale "
         "because another manager created the backup after it was constructed does overwrite - outside the sequential contract)",
@@ -984,7 +1284,9 @@ def replay(w: Workload, case: dict):
     kind = inp["kind"]
     if kind == "history":
         job = {"kind": "history", "tree": inp["tree"], "selection": inp["selection"], "via_cli": inp["via_cli"],
-               "sequences": [inp["sequence"]] if "sequence" in inp else []}
+               "sequences": [inp["sequence"]] if "sequence" in inp else [], "hidden": inp.get("hidden", False)}
+    elif kind == "hidden":
+        job = {"kind": kind, "tree": inp["tree"], "how": inp["how"]}
     elif kind == "damaged":
         job = {"kind": kind, "tree": inp["tree"], "selection": inp["selection"], "only": inp["damage"]}
     else:
